@@ -30,7 +30,8 @@ def chunked(name: str, ty: str, items, out) -> None:
         pn = f"{name}_{i // CHUNK}"
         parts.append(pn)
         out.append(f"def {pn} : List ({ty}) := [\n  " + ",\n  ".join(items[i:i + CHUNK]) + "]\n\n")
-    out.append(f"def {name} : List ({ty}) :=\n  " + " ++\n  ".join(parts) + "\n\n")
+    out.append(f"def {name}_chunks : List (List ({ty})) :=\n  [" + ",\n   ".join(parts) + "]\n\n")
+    out.append(f"def {name} : List ({ty}) := {name}_chunks.flatten\n\n")
 
 
 def encoding_columns(mod: ast.Module):
@@ -113,6 +114,16 @@ def generate(lean_dir: str):
             raise P.Untranslatable(f"glyph list entry {k!r}")
         items.append("(" + P.lean_string(k) + ", [" + ", ".join(str(ord(ch)) for ch in v) + "])")
     chunked("glyphList", "String × List Nat", items, out)
+    # certificate for the kernel proof that every ENCODING row name is a glyph-list name: its position
+    glpos = {k: i for i, k in enumerate(gl)}
+    idx = []
+    for row in enc:
+        if row[0] not in glpos:
+            raise P.Untranslatable(f"ENCODING row name {row[0]!r} is not a glyph-list name")
+        idx.append("(%d, %d)" % divmod(glpos[row[0]], CHUNK))
+    out.append("/-- position (chunk, offset) of each ENCODING row name in `glyphList_chunks` (certificate, checked in "
+               "Lemmas/SimpleFontInst) -/\n")
+    out.append("def ENCODING_GLYPH_INDEX : List (Nat × Nat) := [" + ", ".join(idx) + "]\n\n")
 
     fm_mod = P.parse_file("pdfminer/fontmetrics.py")
     fm = P.literal(P.find_assign(fm_mod, "FONT_METRICS"))
